@@ -47,6 +47,7 @@ LEVEL_TEXT = (
     "unpacked before array attributes are read; xarray.apply_ufunc is given what it needs to build a lazy result (dask mode, output dtypes, sizes of new core "
     "dimensions) by the grid-ufunc machinery and by both transform wrappers. Equality of computed values under every chunking/scheduler is runtime behaviour of dask and is not claimed."
 )
+LEVEL_TEXT += " Also decided: the refusal of length-changing positions covers every input and every axis of a signature; the per-axis dask mode is one of xarray's three words."
 LEVEL_NOTE = "Trusted: dask/xarray contracts. Only the structural clauses are claimed; value equality under chunking is not applicable to static analysis."
 
 ENTRY = [f"grid:Grid.{m}" for m in "diff interp min max cumsum derivative integrate average cumint apply_as_grid_ufunc transform interp_like get_metric diff_2d_vector interp_2d_vector".split()] + \
